@@ -94,6 +94,9 @@ RsTooBig ==
 SchemeKind(scheme) == CASE scheme \in {"ws", "http"} -> "ws" [] scheme \in {"tcp", "tcp4"} -> "rs" [] OTHER -> ""
 ClientConnect(listener, scheme, serialization) ==
   /\ sphase = "new" /\ UNCHANGED <<wvars, origins>>
+  \* (a rawsocket listener that accepts less than the client's HELLO is another story: that HELLO is
+  \* dropped as a whole by the client's own peer - Wire!Send - and the join times out)
+  /\ listener = "rs" => (cfgLimit = 0 \/ cfgLimit >= 4096)
   /\ IF SchemeKind(scheme) = listener
      THEN \* (a whole little session: afterwards the client has left again)
           /\ sphase' = "closed" /\ proto' = IF listener = "ws" THEN "wamp.2." \o serialization ELSE ""
